@@ -75,6 +75,7 @@ typedef struct proc {
     uint64_t last_nonzero_ret_seq;   /* event seq of the last non-success return (for narrow relaxations) */
     double last_signal_time;
     bool ran_this_event, named_this_event, prio_touched_this_event;
+    uint32_t prio_changes;       /* how often its priority was set in this run */
     uint64_t call_evseq; uint64_t rel_evseq[MAXRES];
 } proc;
 
@@ -142,6 +143,7 @@ void pend_viol(const char *prop, const char *sig, const char *fmt, ...) __attrib
 
 /* recording of blocking-call windows for the single-fault sweep */
 typedef struct { int pid, stepk, op; double t0, t1; int64_t prio; } callrec;
+extern uint64_t g_harness_activity;   /* bumped whenever harness code runs a step or a fault: delimits what the library does in one go */
 #define MAXCALLREC 200
 #define MAXEVT 2048
 extern bool g_rec_on; extern callrec g_rec[MAXCALLREC]; extern int g_nrec; extern double g_evt[MAXEVT]; extern int g_nevt;
